@@ -8,7 +8,7 @@ gFam == IOEnv.GEN_FAM
 TruthSeq(z) == SetToSeq(Truths(gFam))
 Pairs(z) ==
   LET ts == TruthSeq(0) IN
-  UNION {{[g |-> ts[i], d |-> D] : D \in Renderings(ts[i], Vars(gFam))} : i \in {j \in DOMAIN ts : j % gPS = gP}}
+  UNION {{[g |-> ts[i], d |-> D] : D \in Renderings(ColourAsClass(ts[i]), Vars(gFam))} : i \in {j \in DOMAIN ts : j % gPS = gP}}
 ASSUME LET ps == Pairs(0) IN
        /\ ndJsonSerialize(IOEnv.GEN_OUT, SetToSeq(ps))
        /\ PrintT(<<"GENERATED", "vtt", Cardinality(ps)>>)
